@@ -4,7 +4,7 @@ import sys, subprocess, re, json, os, collections
 prop, tier, seeds = sys.argv[1], sys.argv[2], sys.argv[3:]
 sigs = collections.OrderedDict()
 for s in seeds:
-    env = dict(os.environ); env["VERIF_SEED"] = s
+    env = dict(os.environ); env["VERIF_SEED"] = s; env["VERIF_NO_KNOWN"] = "1"
     p = subprocess.run(["/verif/check", prop, tier], stdout=subprocess.PIPE, stderr=subprocess.PIPE, text=True, env=env)
     lines = p.stdout.splitlines()
     for i, l in enumerate(lines):
